@@ -1,22 +1,27 @@
 import Driver.IntDrv
 import Driver.CovDrv
+import Driver.ZwDrv
 /-! `zwmodel`: the executable side of the hand-written models.  One request per
-    line on stdin, one answer per line on stdout. -/
+    line on stdin, one or more answer lines on stdout. -/
 open Driver
 
-def step (line : String) : String :=
+def step (st : DState) (line : String) : DState × List String :=
   match line.trimAscii.toString.splitOn " " with
-  | "N" :: rest => handleInt rest
-  | "C" :: rest => handleCov rest
-  | _ => "bad-op"
+  | "N" :: rest => (st, [handleInt rest])
+  | "C" :: rest => (st, [handleCov rest])
+  | "Q" :: rest => (st, handleQ st rest)
+  | "T" :: rest => (st, handleT rest)
+  | "cfg" :: rest => (handleCfg st rest, [])
+  | _ => (st, ["bad-op"])
 
-partial def loop (h : IO.FS.Stream) (out : IO.FS.Stream) : IO Unit := do
+partial def loop (h : IO.FS.Stream) (out : IO.FS.Stream) (st : DState) : IO Unit := do
   let line ← h.getLine
   if line.isEmpty then return ()
-  out.putStrLn (step line)
-  loop h out
+  let (st', outs) := step st line
+  for o in outs do out.putStrLn o
+  loop h out st'
 
 def main : IO Unit := do
   let stdin ← IO.getStdin
   let stdout ← IO.getStdout
-  loop stdin stdout
+  loop stdin stdout {}
